@@ -7,7 +7,7 @@
     default value, not compared through key/by, inside the default variant) that mention a type or
     const parameter ([contains_in_type]). *)
 From DX Require Import Syntax Tables GenBound GenAttrs IR GenType GenCmp GenImpl GenTop
-     SpecAttrs SpecBound LemDump LemBound.
+     SpecAttrs SpecBound LemDump LemBound LemSelf LemMentions.
 
 Theorem C03_default_bounds :
   forall g top vs,
@@ -60,6 +60,53 @@ Example C03_mentions :
   = [true; false; true; true; false; true; false; true; true; true].
 Proof. reflexivity. Qed.
 
+(** ** what "mentions a parameter" means, stated without the traversal of the code
+
+    [heads_ty t] (LemMentions.v): for every path inside [t] that does not start with `::` - in type position, in a trait
+    bound, in a const argument or an array length - the identifier of its first segment.  A type mentions a parameter
+    exactly when one of those identifiers is (up to `r#`) a declared type or const parameter. *)
+Theorem C03_mentions_characterised :
+  forall gps t, contains_in_type gps t = true <-> exists n, In n (heads_ty t) /\ gps_contains gps n = true.
+Proof. exact contains_in_type_witness. Qed.
+
+(** an item without type or const parameters gets no default bound at all *)
+Theorem C03_no_parameters_no_default_bounds :
+  forall vs, default_types [] vs = [].
+Proof.
+  intros vs. unfold default_types. induction vs as [|v r IH]; [reflexivity|]. cbn [flat_map]. rewrite IH, app_nil_r.
+  induction (vp_fields v) as [|f fs IHf]; [reflexivity|]. cbn [flat_map].
+  rewrite contains_in_type_no_params, Bool.andb_false_r. exact IHf.
+Qed.
+
+(** only the parameters that head a path of the type matter: declaring further parameters the type does not name,
+    or renaming those, changes nothing *)
+Theorem C03_mentions_only_heads :
+  forall gps gps' t, (forall n, In n (heads_ty t) -> gps_contains gps n = gps_contains gps' n) ->
+                     contains_in_type gps t = contains_in_type gps' t.
+Proof. exact contains_in_type_only_heads. Qed.
+
+(** operator impls see the field types with `Self` written out ([fields_for], GenTop.v): such a field is bounded by
+    default exactly when it mentions a parameter itself, or mentions `Self` and the item has a type or const parameter *)
+Theorem C03_mentions_after_self_expansion :
+  forall name g t, gps_contains (gps_new g) "Self" = false ->
+    contains_in_type (gps_new g) (expand_self_ty (this_ty_of name g) t)
+    = contains_in_type (gps_new g) t || (mentions_self_ty t && has_params g).
+Proof. exact contains_in_type_expand_this. Qed.
+
+Example C03_self_field :
+  let g := {| g_params := [GPLt "a" []; GPTy "T" [] None]; g_where := [] |} in
+  let w_self := TyPath None false [Seg "W" (SAAngle [GTy self_ty_kw])] in
+  (contains_in_type (gps_new g) w_self,
+   contains_in_type (gps_new g) (expand_self_ty (this_ty_of "X" g) w_self),
+   expand_self_ty (this_ty_of "X" g) w_self)
+  = (false, true,
+     TyPath None false [Seg "W" (SAAngle [GTy (TyPath None false [Seg "X" (SAAngle [GLt "a"; GTy (ident_ty "T")])])])]).
+Proof. reflexivity. Qed.
+
 Print Assumptions C03_default_bounds.
 Print Assumptions C03_only_field_types.
 Print Assumptions C03_all_needed.
+Print Assumptions C03_mentions_characterised.
+Print Assumptions C03_no_parameters_no_default_bounds.
+Print Assumptions C03_mentions_only_heads.
+Print Assumptions C03_mentions_after_self_expansion.
